@@ -326,3 +326,117 @@ def rootInDeg (g : G) (root : Nat) : Nat :=
   ((List.range g.size).map fun u => ((out g u).filter (· == root)).length).foldl (· + ·) 0
 
 end MV.Graph
+
+namespace MV.Graph
+
+/-! ## Mirror of the Go SCC routine (Tarjan, as in graphalg/scc.go) -/
+
+structure TState where
+  low : Array Nat                 -- 0 = not visited; `sentinel` = already assigned to a component
+  stack : List Nat                -- node stack, most recent first
+  index : Nat
+  comps : List (List Nat)         -- finished components, most recent first
+  compOf : Array Nat
+  outStack : List (Nat × Nat)     -- (component id, node-stack length when pushed), most recent first
+  outs : List (List Nat)          -- out-lists of finished components, most recent first
+
+def sentinel (g : G) : Nat := g.size + 2
+
+/-- `connect nid` with recursion-depth fuel -/
+def connect (g : G) : Nat → Nat → TState → TState
+  | 0, _, st => st
+  | fuel + 1, nid, st =>
+    let myLow := st.index
+    let stackPos := st.stack.length
+    let st : TState := { st with low := st.low.setIfInBounds nid myLow, index := st.index + 1, stack := nid :: st.stack }
+    -- successors
+    let (st, mn) := (out g nid).foldl (fun (acc : TState × Nat) oid =>
+      let (st, mn) := acc
+      let st := if st.low.getD oid 0 == 0 then connect g fuel oid st else st
+      let lo := st.low.getD oid 0
+      let mn := if lo < mn then lo else mn
+      let st := if lo == sentinel g then { st with outStack := (st.compOf.getD oid 0, stackPos) :: st.outStack } else st
+      (st, mn)) (st, myLow)
+    if mn < myLow then { st with low := st.low.setIfInBounds nid mn }
+    else
+      -- nid is the root of a component: pop the stack down to nid
+      let cid := st.comps.length
+      let (popped, rest) := st.stack.span (· != nid)
+      let members := (popped ++ [nid]).reverse         -- in push order, as `stack[i:]`
+      let rest := rest.drop 1
+      let low := members.foldl (fun a v => a.setIfInBounds v (sentinel g)) st.low
+      let compOf := members.foldl (fun a v => a.setIfInBounds v cid) st.compOf
+      -- out-edges recorded while this component's nodes were on the stack
+      let (mine, others) := st.outStack.span (fun e => e.2 ≥ rest.length)
+      let outList := dedupSorted (sortNat (mine.map (·.1)))
+      { st with low := low, stack := rest, comps := members :: st.comps, compOf := compOf,
+                outStack := others, outs := outList :: st.outs }
+
+/-- the whole routine: components in creation order, node→component, out-lists -/
+def tarjan (g : G) : List (List Nat) × List Nat × List (List Nat) :=
+  let init : TState := ⟨Array.replicate g.size 0, [], 1, [], Array.replicate g.size 0, [], []⟩
+  let st := (List.range g.size).foldl (fun st nid => if st.low.getD nid 0 == 0 then connect g (g.size + 1) nid st else st) init
+  (st.comps.reverse, st.compOf.toList, st.outs.reverse)
+
+/-! ## Mirror of IDom (Cooper–Harvey–Kennedy) and DomFrontier (graphalg/dom.go) -/
+
+/-- `intersect` with fuel: walk the two fingers up the (partial) dominator tree by post-order number -/
+def intersect (idom : Array Int) (poNum : Array Nat) : Nat → Nat → Nat → Nat
+  | 0, b1, _ => b1
+  | f + 1, b1, b2 =>
+    if b1 == b2 then b1
+    else if poNum.getD b1 0 < poNum.getD b2 0 then intersect idom poNum f (idom.getD b1 0).toNat b2
+    else intersect idom poNum f b1 (idom.getD b2 0).toNat
+
+/-- one pass over the nodes in reverse post-order; returns the new array and whether it changed -/
+def chkPass (g : G) (preds : List (List Nat)) (root : Nat) (rpo : List Nat) (poNum : Array Nat) (idom : Array Int) : Array Int × Bool :=
+  rpo.foldl (fun (acc : Array Int × Bool) b =>
+    let (idom, changed) := acc
+    if b == root then (idom, changed) else
+    let newIdom : Int := (preds.getD b []).foldl (fun (cur : Int) p =>
+      if idom.getD p (-1) == -1 then cur
+      else if cur == -1 then (p : Int)
+      else ((intersect idom poNum (2 * g.size + 2) p cur.toNat : Nat) : Int)) (-1)
+    if idom.getD b (-1) != newIdom then (idom.setIfInBounds b newIdom, true) else (idom, changed)) (idom, false)
+
+/-- iterate to convergence (fuel passes) -/
+def chkIter (g : G) (preds : List (List Nat)) (root : Nat) (rpo : List Nat) (poNum : Array Nat) : Nat → Array Int → Array Int
+  | 0, idom => idom
+  | f + 1, idom =>
+    let (idom', changed) := chkPass g preds root rpo poNum idom
+    if changed then chkIter g preds root rpo poNum f idom' else idom'
+
+def idomCHK (g : G) (root : Nat) : List Int :=
+  let po := postOrder g root
+  let poNum : Array Nat := (po.zip (List.range po.length)).foldl (fun a (v, i) => a.setIfInBounds v i) (Array.replicate g.size 0)
+  let rpo := po.reverse
+  let preds := transpose g
+  let init : Array Int := (Array.replicate g.size (-1 : Int)).setIfInBounds root (root : Int)
+  let res := chkIter g preds root rpo poNum (g.size + 3) init
+  (res.setIfInBounds root (-1)).toList
+
+/-- runner walk of DomFrontier with fuel -/
+def dfWalk (idom : Array Int) (b : Nat) (bdom : Int) : Nat → Int → Array (List Nat) → Array (List Nat)
+  | 0, _, df => df
+  | f + 1, runner, df =>
+    if runner == bdom || runner < 0 then df
+    else
+      let r := runner.toNat
+      let cur := df.getD r []
+      let df := if cur.contains b then df else df.setIfInBounds r (cur ++ [b])
+      dfWalk idom b bdom f (idom.getD r (-1)) df
+
+def domFrontierCHK (g : G) (root : Nat) (idomL : List Int) : List (List Nat) :=
+  let idom := idomL.toArray
+  let preds := transpose g
+  let df := (List.range g.size).foldl (fun (df : Array (List Nat)) b =>
+    let ps := preds.getD b []
+    let bdom := idom.getD b (-1)
+    if ps.length < 2 then df
+    else if bdom == -1 && b != root then df
+    else ps.foldl (fun df p =>
+      if idom.getD p (-1) == -1 && p != root then df
+      else dfWalk idom b bdom (g.size + 2) (p : Int) df) df) (Array.replicate g.size [])
+  df.toList
+
+end MV.Graph
